@@ -467,28 +467,44 @@ Definition mw_start (mbinding : string) (has_redirect : bool) (method : string) 
   else
     do _ <- make_message AuthnReq BRedirect method kt; Panic.
 
+(* samlsp.DefaultServiceProvider (used by samlsp.New): with Options.SignRequest
+   the signature method is chosen by the key type (defaultSigningMethodForKey),
+   otherwise none *)
+Definition samlsp_default_method (kt : keytype) (sign_request : bool) : string :=
+  if sign_request then match kt with KRSA => RSASHA1 | KECDSA => ECDSASHA256 | KOther => EmptyString end
+  else EmptyString.
+
 (* middleware case: m.Binding, whether the IdP has redirect / POST SSO endpoints,
-   method, key type; observed: 0 = 302, 1 = 200 POST page, 2 = 500, 3 = panic,
-   and which signature the emitted AuthnRequest carries *)
+   Options.SignRequest, whether the method is the one samlsp.New chose (else it
+   was overridden afterwards), method, key type; observed: 0 = 302, 1 = 200 POST
+   page, 2 = 500, 3 = panic, and which signature the emitted AuthnRequest carries *)
 Record mwcase := {
-  mw_mbinding : string; mw_has_redirect : bool; mw_has_post : bool; mw_method : string; mw_kt : Z;
+  mw_mbinding : string; mw_has_redirect : bool; mw_has_post : bool;
+  mw_sign_request : bool; mw_default : bool; mw_method : string; mw_kt : Z;
   mw_cls : Z; mw_xmlsig : bool; mw_redirsig : bool }.
 Definition mwcase_agree (c : mwcase) : bool :=
-  match mw_start (mw_mbinding c) (mw_has_redirect c) (mw_method c) (kt_of (mw_kt c)) with
-  | Ok (MwRedirect s) => (mw_cls c =? 0) && Bool.eqb s (mw_redirsig c) && negb (mw_xmlsig c)
-  | Ok (MwPost x) => (mw_cls c =? 1) && Bool.eqb x (mw_xmlsig c) && negb (mw_redirsig c)
-  | Err _ => mw_cls c =? 2
-  | Panic => mw_cls c =? 3
-  end.
+  (if mw_default c then seqb (mw_method c) (samlsp_default_method (kt_of (mw_kt c)) (mw_sign_request c)) else true)
+  && match mw_start (mw_mbinding c) (mw_has_redirect c) (mw_method c) (kt_of (mw_kt c)) with
+     | Ok (MwRedirect s) => (mw_cls c =? 0) && Bool.eqb s (mw_redirsig c) && negb (mw_xmlsig c)
+     | Ok (MwPost x) => (mw_cls c =? 1) && Bool.eqb x (mw_xmlsig c) && negb (mw_redirsig c)
+     | Err _ => mw_cls c =? 2
+     | Panic => mw_cls c =? 3
+     end.
 (* with signing configured the request that leaves through the middleware is
-   signed (detached for the redirect, enveloped for the POST page), or the
-   flow is refused; never an unsigned request *)
+   signed (detached for the redirect, enveloped for the POST page), or the flow
+   is refused because method and key do not fit; never an unsigned request.
+   An SP built by samlsp.New with SignRequest and an RSA or ECDSA key is given
+   a method that fits its key, so its requests ARE signed. *)
 Definition mwcase_spec (c : mwcase) : bool :=
-  if nonempty (mw_method c) then
-    if is_ok (signing_context (mw_method c) (kt_of (mw_kt c)))
-    then ((mw_cls c =? 0) && mw_redirsig c) || ((mw_cls c =? 1) && mw_xmlsig c) || (mw_cls c =? 3)
-    else negb ((mw_cls c =? 0) || (mw_cls c =? 1))
-  else true.
+  let signed_out := ((mw_cls c =? 0) && mw_redirsig c) || ((mw_cls c =? 1) && mw_xmlsig c) in
+  (if nonempty (mw_method c) then
+     if is_ok (signing_context (mw_method c) (kt_of (mw_kt c)))
+     then signed_out || (mw_cls c =? 3)
+     else negb ((mw_cls c =? 0) || (mw_cls c =? 1))
+   else true)
+  && (if mw_default c && mw_sign_request c && negb (keytype_eqb (kt_of (mw_kt c)) KOther)
+      then nonempty (mw_method c) && is_ok (signing_context (mw_method c) (kt_of (mw_kt c))) && signed_out
+      else true).
 Definition check_mwcases := check_cases mwcase_agree mwcase_spec.
 
 (* ---------- where the messages are sent: the IdP endpoint for a binding ---------- *)
